@@ -6,6 +6,7 @@ the backup must decode, verify and restore, unaffected files must be exact and t
 record must describe exactly what restore produces."""
 import concurrent.futures, hashlib, json, os, random, shutil
 from vlib import core, store, hist
+from props import restore_common as rcm
 
 LEVEL = 'proof'
 
@@ -43,7 +44,7 @@ def reader_oracle(case, i):
     return None
 
 
-ACTIONS = ['truncate:0', 'truncate:half', 'truncate:minus1', 'append:100', 'unlink', 'replace-dir', 'replace-symlink:/nonexistent']
+ACTIONS = ['truncate:0', 'truncate:half', 'truncate:minus1', 'append:100', 'unlink', 'replace-dir', 'replace-symlink:/nonexistent', 'replace-symlink:OUTSIDE']
 SIZES = [1, 4096, 70000]
 
 
@@ -85,6 +86,11 @@ def scenario(ctx, sid, seed, size, nested, with_prev, call, k, action):
             os.utime(victim, (w.now + 1, w.now + 1))
         real = os.path.realpath(victim)
         act = action.replace('half', str(size // 2)).replace('minus1', str(max(0, size - 1)))
+        if 'OUTSIDE' in act:
+            # the path becomes a symbolic link to a regular file outside the items: its bytes must never be archived as the path's
+            outside = os.path.join(os.path.realpath(w.base), 'outside-secret')
+            open(outside, 'wb').write(hist.content(599, 3000))
+            act = act.replace('OUTSIDE', outside)
         trace = os.path.join(w.base, 'trace.txt')
         spec = '%s@%s@%d=%s' % (call, real, k, act)
         if action == 'shrink-grow':
@@ -122,9 +128,28 @@ def scenario(ctx, sid, seed, size, nested, with_prev, call, k, action):
         obs['verify_ok'] = v.get('ok') if isinstance(v, dict) else None
         # restore
         rdir = os.path.join(w.base, 'restored')
-        rr = store.run_vsb(ctx, ['-c', w.cfg, 'restore', bdir, rdir])
+        rr, rtree = rcm.real_restore(ctx, w, bdir, rdir)
         obs['restore_rc'] = rr.rc
         obs['restore_errors'] = rr.errors()[:3]
+        # the hypotheses of `restore_exact` / `changed_file_restores` on this storage: the group as stored - entries of
+        # files that shrank being content + zero padding - must be the rendering of a well-formed, resolvable logical
+        # group, and then the model's restore (= the theorem's tree) must be what the real restore produced
+        try:
+            contents = rcm.Contents()
+            grp = rcm.decode_group(os.path.join(w.root, gdirs[0]), contents, split_padding=True)
+            tgt = [b['name'] for b in grp].index(bname)
+            mreq = rcm.model_request(grp, tgt, contents)
+            m = core.run_lines(core.model_exe(), [core.req('restore', {k: v for k, v in mreq.items() if k != 'strict_error'})])[0]
+            g = m.get('general') if isinstance(m, dict) else None
+            obs['padded_entries'] = sum(1 for b in grp for e in b['archive'] if e.get('pad'))
+            if isinstance(g, dict):
+                obs['general_holds'] = bool(g.get('holds'))
+                if g.get('holds') and rr.rc == 0 and rtree is not None:
+                    obs['general_tree_diff'] = rcm.compare_trees(rcm.model_tree({'fs': g['fs']}, contents), rtree)
+                    obs['general_model_agrees'] = m.get('result') == 'done' and m.get('ok') is True and \
+                        sorted(m.get('fs', []), key=lambda e: e['path']) == sorted(g['fs'], key=lambda e: e['path'])
+        except Exception as e:
+            obs['general_error'] = repr(e)[:200]
         if rr.rc == 0:
             for p, c in others.items():
                 q = os.path.join(rdir, os.path.realpath(p).lstrip('/'))
@@ -167,6 +192,8 @@ def oracle(o):
         return 'restore does not produce what the record describes'
     if o.get('restored_is_prefix') is False:
         return 'the restored bytes are not a prefix of what was on disk'
+    if o.get('general_holds') and o.get('general_tree_diff'):
+        return 'the restored tree is not the tree of the logical backup (restore_exact on the stored group): %s' % o['general_tree_diff']
     return None
 
 
@@ -214,6 +241,22 @@ def check(ctx):
         if m:
             bad += 1
             ctx.violation('property', 'changing file: ' + m, {'case': o})
+    gen = {'evaluated': 0, 'hypotheses_hold': 0, 'with_padded_entries': 0, 'hold_with_padded_entries': 0, 'errors': 0}
+    for o in fired:
+        if 'general_error' in o:
+            gen['errors'] += 1
+        if 'general_holds' not in o:
+            continue
+        gen['evaluated'] += 1
+        gen['hypotheses_hold'] += 1 if o['general_holds'] else 0
+        gen['with_padded_entries'] += 1 if o.get('padded_entries') else 0
+        gen['hold_with_padded_entries'] += 1 if o.get('padded_entries') and o['general_holds'] else 0
+        if o['general_holds'] and o.get('general_model_agrees') is False:
+            ctx.violation('proof', 'the restore model contradicts restore_exact_checked on a real instance with a changing file', {'case': o}, found_input=False)
+        if not o['general_holds'] and not oracle(o) and not (o.get('record') and o['record']['unique'] and o['record']['size'] == 0):
+            # (a stored file read as empty after a non-zero size was announced is not represented by `render`)
+            ctx.violation('correspondence', 'a backup made while a file changed (published, verified, restored) is not the rendering of a well-formed, '
+                          'resolvable logical group with padded entries: the hypotheses of restore_exact/changed_file_restores do not hold', {'case': o}, found_input=False)
     dist = {}
     for o in fired:
         k = '%s:%s' % (o.get('call'), o.get('action', '').split(':')[0])
@@ -225,7 +268,7 @@ def check(ctx):
                 'end to end: writer action %s inside call lstat/open/fstat/read#k (k=1..25 covers both passes) for file sizes %s, nested/top-level directory, with/without previous backup; only scenarios whose action really fired are counted' % (ACTIONS, sizes),
         'samples': [rc[0]] + fired[:1],
         'correspondence': {'filereader': st, 'e2e_planned': len(plans), 'e2e_fired': len(fired), 'e2e_failures': bad},
-        'action_distribution': dist,
+        'action_distribution': dist, 'restore_exact_on_changing_files': gen,
         'disagreements_checked': st['cases'],
     })
     ctx.assumptions += ['the writer acts between two system calls of vsb (performed by the interposer inside the intercepted call), i.e. deterministic schedules; truly simultaneous writes inside one read(2) are the kernel\'s',
